@@ -162,6 +162,8 @@ def _other_forms(ctx, c, inp, iv):
         forms["resolve(JSON text)"] = lambda: p.resolve(txt)
         forms["resolve(StringIO)"] = lambda: p.resolve(io.StringIO(txt))
         forms["resolve(BytesIO)"] = lambda: p.resolve(io.BytesIO(txt.encode("utf-8")))
+        forms["resolve(JSON text, blank-padded and indented)"] = lambda: p.resolve("\n  " + json.dumps(doc, ensure_ascii=False, indent=1) + "\n")
+        forms["exists(JSON text, blank-padded)"] = lambda: (p.resolve(" \t" + txt) if p.exists("\r\n " + txt + " ") else p.resolve(doc))
         forms["jsonpath.pointer.resolve(text, JSON text)"] = lambda: jsonpath.pointer.resolve(s, txt, unicode_escape=ue)
         forms["exists(JSON text)"] = None
     for name, fn in forms.items():
